@@ -77,3 +77,13 @@ Example C10_nontrivial :
   | _ => False
   end.
 Proof. vm_compute. repeat split. Qed.
+
+(* After the repair of finding F13 (fix: 22eb2ce): a commit index restored from the log store that covers the
+   latest configuration leaves that configuration committed, for ANY durable image - so a restarted server that
+   leads can open its membership-change gate (config_gate_open needs v_latestIdx = v_committedIdx) *)
+From RaftProofs Require Import RecoverF13.
+Theorem C10_restart_promotes_a_configuration_covered_by_the_restored_commit_index : forall P img s tr,
+  recover P img = RecOk s tr -> 0 < v_commit s -> v_latestIdx s <= v_commit s ->
+  v_committedIdx s = v_latestIdx s /\ v_committed s = v_latest s.
+Proof. exact recover_promotes_covered_configuration. Qed.
+Print Assumptions C10_restart_promotes_a_configuration_covered_by_the_restored_commit_index.
